@@ -65,7 +65,10 @@ def evaluate(cfg, stim, backend="fast"):
                 pulsed = sum(1 for g, t in ev["r_pulse"] if g < gt)
                 deliv = sum(1 for g, t in ev["r_deliv"] if g < gt)
                 # the listed finding is an overrun of a FIFO of the DECLARED depth; a word lost with fewer words inside is something else
-                f["key"] = "rdata_fifo_full" if pulsed - deliv >= cfg["rdata_depth"] - 3 else "R-other"      # (-3: the read pointer crosses the domains with 2-3 cycles of delay)
+                # (a 4-deep crossing - the smallest LiteX builds - cannot even cover its own pointer synchronisation under back-to-back strobes: deliveries
+                #  of the last ~3 cycles are not visible to the writing side yet, so it overruns with hardly anything inside; same listed finding)
+                need = cfg["rdata_depth"] - 3 if cfg["rdata_depth"] > 4 else 0
+                f["key"] = "rdata_fifo_full" if pulsed - deliv >= need else "R-other"      # (-3: the read pointer crosses the domains with 2-3 cycles of delay)
                 f["what"] += " [%d read words strobed, %d delivered to the user side, rdata FIFO depth %d]" % (pulsed, deliv, cfg["rdata_depth"])
             elif gt is not None:
                 pushed = sum(1 for g, t in ev["w_push"] if g < gt)
